@@ -141,8 +141,26 @@ fn history<C: Col + ColorMapping>(ctx: &mut Ctx, rng: &mut Rng, palette: &[C]) {
     // half of the histories with both checks on rely on the default instead of calling the setters
     let use_defaults = flags == (false, false) && rng.chance(1, 2);
     if !use_defaults {
-        d.set_allow_overdraw(flags.0);
-        d.set_allow_out_of_bounds_drawing(flags.1);
+        // the flags are reached through a detour of other settings every third time, and the two final
+        // setters are called in either order: only the values in force when an operation runs may count
+        // (seeded `C20-18`: a cached "no check enabled" flag that one setter never clears)
+        if rng.chance(1, 3) {
+            for _ in 0..rng.usizer(1, 4) {
+                if rng.chance(1, 2) {
+                    d.set_allow_overdraw(rng.chance(2, 3));
+                } else {
+                    d.set_allow_out_of_bounds_drawing(rng.chance(2, 3));
+                }
+            }
+            ctx.count("histories_with_a_detour_of_flag_settings", 1);
+        }
+        if rng.chance(1, 2) {
+            d.set_allow_overdraw(flags.0);
+            d.set_allow_out_of_bounds_drawing(flags.1);
+        } else {
+            d.set_allow_out_of_bounds_drawing(flags.1);
+            d.set_allow_overdraw(flags.0);
+        }
     } else {
         ctx.count("histories_relying_on_default_flags", 1);
     }
